@@ -219,7 +219,17 @@ from_hex!(PlutusData, hex_str, {
     let bytes = hex::decode(hex_str).map_err(|e| {
         DeserializeError::new("PlutusData", DeserializeFailure::CustomError(e.to_string()))
     })?;
-    Ok(PlutusData::from_bytes(bytes)?)
+    let len = bytes.len() as u64;
+    let mut raw = Deserializer::from(std::io::Cursor::new(bytes));
+    let data = Self::deserialize(&mut raw)?;
+    if raw.as_ref().position() < len {
+        Err(DeserializeError::new(
+            "PlutusData",
+            DeserializeFailure::CBOR(cbor_event::Error::TrailingData),
+        ))
+    } else {
+        Ok(data)
+    }
 });
 
 #[wasm_bindgen]
